@@ -14,6 +14,7 @@ import datetime
 import itertools
 import random
 import shutil
+import time
 import warnings
 
 from harness import coqterm as ct
@@ -264,12 +265,15 @@ def oracle_statics(t, src, fields, res):
     probs = []
     if len(res.cells) != len(t.cells):
         return [f"add_statics changed the number of cells ({len(t.cells)} -> {len(res.cells)})"]
+    rows = {}           # (slice, period) -> source cells in source order
+    for s_ in src.cells:
+        rows.setdefault((meta_key(s_.metadata), s_.period), []).append(s_)
     for c, o in zip(t.cells, res.cells):
         cc, co = ct.canon_cell(c, ordered=True), ct.canon_cell(o, ordered=True)
         if cc[:6] != co[:6]:
             probs.append("add_statics changed class, coordinates or metadata of a cell")
             break
-        row = [s for s in src.cells if meta_key(s.metadata) == meta_key(c.metadata) and s.period == c.period]
+        row = rows.get((meta_key(c.metadata), c.period), [])
         if row:
             mx = max(s.evaluation_date for s in row)
             s = [x for x in row if x.evaluation_date == mx][-1]
@@ -746,6 +750,78 @@ def hardening(ctx, run: Runner):
                else ["coalesce([t]) is not t"], True)
 
 
+def large_stream(ctx, run: Runner):
+    """family Q: a handful of big operand pairs per run, python oracles only (no Coq literals); process-wide
+    state is probed by re-checking the first pair after the large work"""
+    bm = jc.bermuda()
+
+    def src_for(t, fields=("prem", "expo"), per_period=1, shift=0):
+        seen, cells = {}, []
+        for c in t.cells:
+            k = (id(c.metadata), c.period)
+            if seen.get(k, 0) < per_period:
+                seen[k] = seen.get(k, 0) + 1
+                ev = jc.add_months_end(c.period_end, 12 + seen[k])
+                kw = dict(period_start=c.period_start, period_end=c.period_end, evaluation_date=ev, metadata=c.metadata,
+                          values={f: 5 * len(cells) + i + shift for i, f in enumerate(fields)})
+                if is_inc(c):
+                    kw["prev_evaluation_date"] = c.period_start - datetime.timedelta(days=1)
+                cells.append(type(c)(**kw))
+        return jc.mk_triangle(cells)
+
+    def pair(name, t1, t2, ons=(None,), jts=JOIN_TYPES, statics=(["prem"],), pm=True, coal=True):
+        d = {"large": name, "cells": [len(t1), len(t2)]}
+        for jt in jts:
+            for on in ons:
+                for op, f, merged in (("join", lambda: bm.utils.join(t1, t2, jt, on), False),
+                                      ("merge", lambda: t1.merge(t2, join_type=jt, on=on), True)):
+                    ctx.hist(f"large:{name}")
+                    run.record({**d, "op": "large", "operation": f"{op}({jt}, on={on})"},
+                               oracle_join(t1, t2, jt, on, call(f), merged=merged), True)
+        for fs in statics:
+            ctx.hist(f"large:{name}")
+            run.record({**d, "op": "large", "operation": f"add_statics({fs})"},
+                       oracle_statics(t1, t2, fs, call(lambda: t1.add_statics(t2, statics=fs))), True)
+        if pm:
+            ctx.hist(f"large:{name}")
+            run.record({**d, "op": "large", "operation": "period_merge"},
+                       oracle_pm(t1, t2, "_s", call(lambda: t1.period_merge(t2, suffix="_s"))), True)
+        if coal:
+            ctx.hist(f"large:{name}")
+            run.record({**d, "op": "large", "operation": "coalesce"},
+                       oracle_coalesce([t1, t2, t1], call(lambda: t1.coalesce([t2, t1]))), True)
+
+    def first_pairs(tag):
+        # a slice boundary exactly at sorted cell index 256; sources keyed by slice and period
+        a = jc.big_triangle(slice_sizes=[256, 44])
+        pair(f"boundary-at-256{tag}", a, src_for(a), statics=(["prem"], ["prem", "expo", "nope"]))
+        pair(f"boundary-at-256{tag}/reverse", src_for(a), a, jts=["full", "inner"])
+        b_ = jc.big_triangle(slice_sizes=[256, 256, 1], inc=True)
+        pair(f"boundaries-256-256-1-incremental{tag}", b_, src_for(b_, per_period=2), statics=(["expo"],))
+
+    with warnings.catch_warnings():
+        warnings.simplefilter("ignore")
+        first_pairs("")
+        # ~1100 cells each, overlapping coordinates, other fields, integers beyond 2**53, equal metadata re-spelled
+        t1 = jc.big_triangle(slice_sizes=[600, 500], fields=("paid", "prem"), value_shift=2 ** 53)
+        t2 = jc.big_triangle(slice_sizes=[600, 300, 40], fields=("rep", "paid"), value_shift=2 ** 53 + 1, alias_every=3)
+        pair("1100x940", t1, t2, ons=(None, ["lob"], ["country", "grp"]), statics=(["paid", "rep"],))
+        # 300 cells collapse onto ONE coordinate under on=['country'] (last wins); 2200 distinct Metadata
+        many = jc.big_triangle(slice_sizes=[1] * (2200 if ctx.quick else 4300), limit=2 ** 53)
+        many2 = jc.big_triangle(slice_sizes=[1] * (2200 if ctx.quick else 4300), limit=2 ** 53, value_shift=3, fields=("rep",))
+        pair("2200-slices", many, many2, ons=(None, ["per_occurrence_limit"], ["country"]), jts=["full", "inner", "left_anti"])
+        # 260 triangles holding the same coordinate: the first one wins
+        singles = [jc.mk_triangle([jc.with_values(many.cells[0], {"paid": i})]) for i in range(260)]
+        ctx.hist("large:coalesce-260")
+        run.record({"large": "coalesce-260", "op": "large", "operation": "coalesce of 260 one-cell triangles"},
+                   oracle_coalesce(singles, call(lambda: singles[0].coalesce(singles[1:]))), True)
+        if not ctx.quick:
+            big = jc.big_triangle(slice_sizes=[1024, 1024, 1024, 100])
+            pair("3172-cells", big, src_for(big), jts=["full", "inner"])
+        # process-wide state: the first pairs again after the large work
+        first_pairs(" (re-check after the large work)")
+
+
 def directed(ctx, run: Runner):
     """error branches and the repaired defect F13 (empty left operand)"""
     bm = jc.bermuda()
@@ -857,6 +933,10 @@ def correspond(ctx):
     run = Runner(ctx, cases)
     directed(ctx, run)
     hardening(ctx, run)
+    t_large = time.time()
+    large_stream(ctx, run)
+    ctx.notes.append(f"large stream (family Q): python-side oracles only, no Coq literals -- the theorems are "
+                     f"size-independent, the correspondence samples small operands; {time.time() - t_large:.1f} s")
     for basis in ("cum", "inc"):       # family O: objects that crossed a process boundary
         probs, err = jc.cross_process_probe(ctx, basis)
         ctx.hist("cross-process probe (pickled under another PYTHONHASHSEED)")
@@ -929,7 +1009,10 @@ def run(ctx):
         "the full product, the quick tier every pair x every join type with on=None plus one rotating `on` variant per "
         "pair, the 16^3 triples of the first four cells plus a sample; directed error "
         "branches (cell-type clash, unknown join type, empty operands) and operands whose metadata differ only in "
-        "where a key lives (details vs loss_details, attribute vs detail key of that name); a hardening stream (falsy "
+        "where a key lives (details vs loss_details, attribute vs detail key of that name); a LARGE stream judged by python "
+        "oracles only (slice boundaries at sorted index 256, 1100x940-cell pairs with integers beyond 2**53, 2200 slices, "
+        "300 cells collapsing onto one coordinate, 260-way coalesce, first pairs re-checked after the large work); "
+        "a hardening stream (falsy "
         "values, None vs '' vs 0 metadata, `on` with loss_detail keys, restated cells, nested periods, NumPy corner "
         "types, operands built from datetimes, one cell / empty, repeated calls, positional / keyword / function "
         "spellings, coalesce refusal); random larger pairs from harness/gen.py with "
@@ -975,6 +1058,23 @@ def replay(ctx, data):
     elif op == "period_merge":
         res = call(lambda: t1.period_merge(t2, suffix=data.get("suffix")))
         probs = oracle_pm(t1, t2, data.get("suffix"), res)
+    elif op == "large":
+        class _Ctx:                 # re-run the large stream (generator parameters are in the code, not in the file)
+            quick = True
+            def hist(self, *a): pass
+            def nontriv(self, *a): pass
+        class _Run:
+            def __init__(self): self.fails = []
+            def record(self, d, probs, nt):
+                if probs: self.fails.append((d, probs))
+        rr = _Run()
+        large_stream(_Ctx(), rr)
+        mine = [f for f in rr.fails if f[0].get("large") == data.get("large")] or rr.fails
+        for d_, pr in mine[:6]:
+            print(f"PROBLEM: [{d_['large']}, cells {d_.get('cells')}] {d_['operation']}: {pr[0][:300]}")
+        if not rr.fails:
+            print("the property holds on the large stream")
+        return 1 if rr.fails else 0
     elif op == "cross_process":
         probs, err = jc.cross_process_probe(ctx, data.get("basis", "cum"))
         res = RuntimeError(err) if err else []
